@@ -376,7 +376,7 @@ def rule_index_normalisation(ctx, cfg='prod-all'):
                     continue
                 root = fd.resolve_place(a['pl'])[0]
                 at = fd.read(root, ())
-                derived = any(strip(x)[0] == 'p' and 'index' in (b.local_name(strip(x)[1]) or '') for x in at)
+                derived = any(x[0] == 'p' and 'index' in (b.local_name(x[1]) or '') for x in at)      # its elements (not just its length) come from an index list
                 if not derived:
                     continue      # e.g. the list of undisclosed positions computed here
                 # lists merged from normalised pieces (blind interface): every piece must be normalised
